@@ -110,6 +110,17 @@ CLAIMED = {
         note='Trusted: Coq kernel, extraction, parser model (correspondence-checked on all line numbers), line-recording generator. Known finding kf_setext_in_quote; one fix: commit (blank first line of a list item).',
         technique='Coq proof (induction over the dispatch loop and reader loops) + extracted-model correspondence + line-recording generator oracle',
         design='5/C13'),
+    'C06': dict(
+        text='Unbounded theorems: the flanking classification of the model (is_opener / is_closer) equals the specification\'s left/right flanking with the '
+             'underscore restrictions for ALL strings and positions (both character tables regenerated; the implementation\'s sets are proved equal to '
+             'sets derived from unicodedata by the CommonMark definition), and closed_by is the negated rule of three on original lengths. Bounded theorems, '
+             'kernel-evaluated in 33 shards: the complete inline parse of the model equals an independent Gallina transcription of the specification\'s '
+             'delimiter algorithm on EVERY string over {a,space,*,_,.} up to length 7 and over {a,*}, {a,_} up to length 12. Beyond those bounds: the '
+             'implementation is compared with the extracted specification algorithm exhaustively to length 8 (thorough: 9) / 14 and on random wide-alphabet strings.',
+        note='Trusted: Coq kernel incl. vm_compute, extraction, Spec/Delims.v as the yardstick, the inline model (correspondence-checked). '
+             'No unbounded equality theorem (would need a simulation proof between two stack machines). Three fix: commits.',
+        technique='Coq proof (boolean case analysis, unbounded) + kernel evaluation of model vs specification on the finite sets + exhaustive implementation-vs-specification comparison',
+        design='5/C06'),
 }
 
 NOT_YET = {}
